@@ -32,6 +32,23 @@ type Case struct {
 	Src      string `json:"src"`      // the mutated program
 	Operator string `json:"operator"` // mutation operator
 	Context  string `json:"context"`  // syntactic context of the site
+	// Imported: the program additionally imports a source package whose
+	// initialisation prints (evaluated through EvalPath on an in-memory GOPATH).
+	Imported bool `json:"imported,omitempty"`
+}
+
+const importedPkg = "package pk\n\nimport \"fmt\"\n\nvar V = mark()\n\nfunc mark() int {\n\tfmt.Println(\"PK-VARINIT\")\n\treturn 7\n}\n\nfunc init() {\n\tfmt.Println(\"PK-INIT\")\n}\n"
+
+// run executes the mutant under the interpreter.
+func (c *Case) run(src string, budget uint64) yrun.Outcome {
+	if !c.Imported {
+		out, _ := yrun.Execute(&yrun.Job{Src: src, OpBudget: budget}, 20*time.Second)
+		return out
+	}
+	withImport := strings.Replace(src, "import (\n", "import (\n\t_ \"pk\"\n", 1)
+	out, _ := yrun.Execute(&yrun.Job{GoPath: "gp", Path: "gp/src/m/main.go", OpBudget: budget,
+		Files: map[string]string{"gp/src/m/main.go": withImport, "gp/src/pk/pk.go": importedPkg}}, 20*time.Second)
+	return out
 }
 
 const markers = `
@@ -664,17 +681,22 @@ func (c *Case) check() (sig, msg string, skip bool) {
 	if tc.err == nil {
 		return "", "", true
 	}
-	out, _ := yrun.Execute(&yrun.Job{Src: c.Src, OpBudget: 3_000_000}, 20*time.Second)
+	out := c.run(c.Src, 3_000_000)
+	op := c.Operator
+	if c.Imported && strings.Contains(out.Stdout, "PK-") && !strings.Contains(out.Stdout, "PKGINIT") {
+		// only the imported package ran: its own root cause
+		op = "imported-package-initialised"
+	}
 	switch {
 	case out.Class == yrun.OK || out.Class == yrun.Diverged || out.Class == yrun.Deadlock:
-		return c.Operator + "/accepted", fmt.Sprintf("go/types rejects the program (%s) but the interpreter ran it (class %s, stdout %q)", diff.NormErr(tc.err.Error()), out.Class, clip(out.Stdout)), false
+		return op + "/accepted", fmt.Sprintf("go/types rejects the program (%s) but the interpreter ran it (class %s, stdout %q)", diff.NormErr(tc.err.Error()), out.Class, clip(out.Stdout)), false
 	case out.Class == yrun.Escaped:
 		if out.Stdout != "" {
-			return c.Operator + "/ran-before-error", fmt.Sprintf("go/types rejects the program (%s); a Go panic escaped the interpreter after output %q: %s", diff.NormErr(tc.err.Error()), clip(out.Stdout), out.Err), false
+			return op + "/ran-before-error", fmt.Sprintf("go/types rejects the program (%s); a Go panic escaped the interpreter after output %q: %s", diff.NormErr(tc.err.Error()), clip(out.Stdout), out.Err), false
 		}
 		return "", "", false // an error before anything ran (reported as a panic of Compile): accepted as rejection
 	case out.Stdout != "":
-		return c.Operator + "/ran-before-error", fmt.Sprintf("go/types rejects the program (%s); the interpreter returned an error (%s: %s) but only after executing statements: stdout %q", diff.NormErr(tc.err.Error()), out.Class, clip(out.Err), clip(out.Stdout)), false
+		return op + "/ran-before-error", fmt.Sprintf("go/types rejects the program (%s); the interpreter returned an error (%s: %s) but only after executing statements: stdout %q", diff.NormErr(tc.err.Error()), out.Class, clip(out.Err), clip(out.Stdout)), false
 	}
 	return "", "", false
 }
@@ -699,6 +721,9 @@ func run(ctx *vf.Ctx) {
 			ctx.Class("no-applicable-site")
 			return
 		}
+		if !vf.IsKnown("C12", "imported-package-initialised") {
+			c.Imported = rapid.IntRange(0, 4).Draw(t, "imported") == 0
+		}
 		sig, msg, skipped := c.check()
 		if skipped {
 			ctx.Class("mutation-not-ill-typed:" + c.Operator)
@@ -707,6 +732,9 @@ func run(ctx *vf.Ctx) {
 		ctx.Eval()
 		ctx.Class("op:" + c.Operator)
 		ctx.Class("ctx:" + c.Context)
+		if c.Imported {
+			ctx.Class("with-imported-source-package")
+		}
 		ctx.Nontrivial(c.Src)
 		ctx.Sample(map[string]any{"operator": c.Operator, "context": c.Context, "src_lines": strings.Count(c.Src, "\n")}, 4)
 		if sig != "" {
